@@ -22,6 +22,10 @@ pub fn plans(id: &str) -> Vec<Plan> {
         ],
         "C04" => vec![Plan { check: Box::new(ps::C04), quick: 30_000, thorough: 1_500_000 }],
         "C05" => vec![Plan { check: Box::new(ps::C05Static), quick: 20_000, thorough: 1_000_000 }],
+        "C06" => vec![
+            Plan { check: Box::new(crate::props_c06::C06Static), quick: 30_000, thorough: 1_500_000 },
+            Plan { check: Box::new(pd::C01 { focus: pd::Focus::Reentrancy, id: "C06" }), quick: 4_000, thorough: 200_000 },
+        ],
         "C07" => vec![
             Plan { check: Box::new(pm::C07Static), quick: 20_000, thorough: 1_000_000 },
             Plan { check: Box::new(pd::C01 { focus: pd::Focus::Strictness, id: "C07" }), quick: 3_000, thorough: 150_000 },
